@@ -69,21 +69,28 @@ def control_names(rules):
     raise RuntimeError("no control_name rule in cddl.pest")
 
 
-def parse_native(texts):
-    code, out = e1.replay_api("parse", {"texts": [list(t) for t in texts]})
+def parse_native(texts, rule=None):
+    if rule:
+        code, out = e1.replay_api("parse_rule", {"rule": rule, "texts": [list(t) for t in texts]})
+    else:
+        code, out = e1.replay_api("parse", {"texts": [list(t) for t in texts]})
     if code != 0:
         raise RuntimeError("native parse helper failed: " + out)
     return json.loads(out.strip().splitlines()[-1])
 
 
 class Shape:
-    """A query shape: list of items, int = concrete byte, None = symbolic byte."""
+    """A query shape: list of items, int = concrete byte, None = symbolic byte.
+    `token` = (pest rule, ABNF nonterminal): compare one token rule over the whole string
+    instead of the document rule (lemma used by the E1 literal-decoder harnesses: what the
+    grammar hands to parse_*_lit is exactly an RFC uint / int spelling)."""
 
-    def __init__(self, name, frame, utf8=False, hole_alphabet=None):
+    def __init__(self, name, frame, utf8=False, hole_alphabet=None, token=None):
         self.name = name
         self.frame = frame
         self.utf8 = utf8
         self.hole_alphabet = hole_alphabet
+        self.token = token
 
     def vars(self):
         S, sym = [], []
@@ -105,8 +112,17 @@ def template(name, prefix, hole, suffix, utf8=False, alphabet=None):
     return Shape(f"{name}[{hole}]", list(prefix.encode()) + [None] * hole + list(suffix.encode()), utf8, alphabet)
 
 
+def token_shape(rule, nonterminal, n):
+    return Shape(f"tok:{rule}[{n}]", [None] * n, False, None, (rule, nonterminal))
+
+
 def shapes_for(pid, tier):
     out = []
+    if pid == "C07":
+        top = 6 if tier == "quick" else 9
+        for n in range(1, top + 1):
+            out.append(token_shape("uint_value", "uint", n))
+            out.append(token_shape("int_value", "negint", n))
     if pid == "C03":
         top = 8 if tier == "quick" else 10
         out += [free(n) for n in range(0, top + 1)]
@@ -158,7 +174,10 @@ class Query:
         self.S, self.sym = shape.vars()
         t0 = time.time()
         self.pe = peg.PegEncoder(rules, self.S, utf8=shape.utf8)
-        self.acc = self.pe.accept()
+        if shape.token:
+            self.acc = self.pe.rule_span(shape.token[0], 0, len(self.S), atomic=True)
+        else:
+            self.acc = self.pe.accept()
         self.encode_peg_s = time.time() - t0
         self.rules = rules
         self.ctl = ctl
@@ -169,7 +188,7 @@ class Query:
         key = frozenset(switches)
         if key not in self.oracles:
             enc = abnf.CfgEncoder(abnf.make_grammar(set(switches), self.ctl, self.shape.utf8), self.S, tag + str(len(self.oracles)))
-            d = enc.derives()
+            d = enc.derives(self.shape.token[1]) if self.shape.token else enc.derives()
             self.oracles[key] = (d, enc.defs)
         return self.oracles[key]
 
@@ -285,8 +304,8 @@ def run(pid, tier, seed):
                 if res != "sat":
                     verdict = res
                     break
-                # a model: replay through the real parser
-                nat = parse_native([text])[0]
+                # a model: replay through the real parser (token lemmas: through the pest rule itself)
+                nat = parse_native([text], sh.token[0] if sh.token else None)[0]
                 if not nat.get("utf8", True):
                     block.append(symvals)
                     continue
@@ -299,7 +318,7 @@ def run(pid, tier, seed):
                     block.append(symvals)
                     entry.setdefault("bridge_rejected_models", []).append(text.decode("latin-1"))
                     continue
-                rec = {"property": pid, "engine": "E2", "direction": direction, "shape": sh.name,
+                rec = {"property": pid, "engine": "E2", "direction": direction, "shape": sh.name, "token_rule": sh.token[0] if sh.token else None,
                        "text": list(text), "text_repr": repr(text), "pest_accepts": nat["pest"], "crate_accepts": nat["crate"],
                        "what": ("accepted by the crate but not derivable from the RFC grammar (with listed leniencies)"
                                 if direction == "over" else "derivable from the RFC grammar but rejected by the crate")}
@@ -388,7 +407,7 @@ def run(pid, tier, seed):
 
 
 def replay(rec):
-    nat = parse_native([bytes(rec["text"])])[0]
+    nat = parse_native([bytes(rec["text"])], rec.get("token_rule"))[0]
     print(f"text {bytes(rec['text'])!r}: pest accepts={nat.get('pest')} crate accepts={nat.get('crate')}")
     still = (nat.get("crate") is True) if rec["direction"] == "over" else (nat.get("crate") is False)
     if still:
